@@ -30,6 +30,7 @@ Definition writes_s (s : sstmt) : list nat :=
   | SAssign x _ _ | SEvery x _ _ | SOp x _ _ _ => [x]
   | SMod dst x _ => x :: match dst with Some (y, _) => [y] | None => [] end
   | SSwap x _ y _ => [x; y]
+  | SOpMod x _ _ _ y _ => [x; y]
   end.
 Definition writes (s : stmt) : list nat :=
   match s with
@@ -71,6 +72,15 @@ Proof.
     assert (H1 : nth_error st1 y = nth_error sg y).
     { pose proof (assign_to_frame sg false x p b y). rewrite E1 in H. apply H. tauto. }
     destruct ok1; simpl; auto. rewrite assign_to_frame; [auto | tauto].
+  - destruct (nth_error sg x) as [v|]; simpl; auto.
+    destruct (v_get v p) as [old|]; simpl; auto.
+    destruct (nth_error sg y0) as [vy|]; simpl; auto.
+    destruct (lop_apply m vy) as [vy' r].
+    assert (H1 : nth_error (set_var sg y0 vy') y = nth_error sg y) by (apply nth_error_set_var_neq; tauto).
+    destruct r as [res|]; simpl; auto.
+    destruct (nth_error (set_var sg y0 vy') x) as [v1|]; simpl; auto.
+    destruct (v_opassign_old p f old (if wrap then VList [res] else res) v1) as [v' ok']. simpl.
+    rewrite nth_error_set_var_neq; [auto | tauto].
 Qed.
 
 Lemma exec_list_frame body : forall sg y, ~ In y (flat_map writes_s body) ->
@@ -170,6 +180,14 @@ Proof.
     assert (H1 : length st1 = length sg).
     { pose proof (length_assign_to sg false x p b). rewrite E1 in H. auto. }
     destruct ok1; simpl; auto. rewrite length_assign_to; auto.
+  - destruct (nth_error sg x) as [v|]; simpl; auto.
+    destruct (v_get v p) as [old|]; simpl; auto.
+    destruct (nth_error sg y) as [vy|]; simpl; auto.
+    destruct (lop_apply m vy) as [vy' r].
+    destruct r as [res|]; simpl; [|apply length_set_var].
+    destruct (nth_error (set_var sg y vy') x) as [v1|]; simpl; [|apply length_set_var].
+    destruct (v_opassign_old p f old (if wrap then VList [res] else res) v1) as [v' ok']. simpl.
+    rewrite !length_set_var. reflexivity.
 Qed.
 Lemma length_exec_list body : forall sg, length (fst (exec_list sg body)) = length sg.
 Proof.
